@@ -21,6 +21,9 @@ use vcore::{Cfg, Check, Cx, Finding, Meta, SUB_SETUP, Tier, Value, Violation, js
 
 mod indep;
 
+#[global_allocator]
+static ALLOC: host::alloc_count::Counting = host::alloc_count::Counting;
+
 const MAX_PKGS: usize = 2;
 const MAX_HANDLES: usize = 3;
 const CHUNK: usize = 40;
@@ -34,6 +37,8 @@ enum Op {
     Call(usize),      // handle slot
     DropH(usize),     // handle slot
     DropHThread(usize),
+    DropHUnwind(usize), // the handle is dropped while a panic unwinds (inside catch_unwind)
+    DropPUnwind(usize), // likewise the package
     IntoFunc(usize),  // handle slot: `into_func()`, the slot then holds the closure
     MakeList(usize),  // package slot: call its `mk_list()`, keep the List[String] the script made (one list slot)
     UseList,          // `contains` on that list and clone + drop of a clone (needs the element clone / drop / eq code)
@@ -91,6 +96,7 @@ impl Model {
                     v.push(Op::Get(i));
                 }
                 v.push(Op::DropP(i));
+                v.push(Op::DropPUnwind(i));
             }
         }
         match self.list {
@@ -115,6 +121,7 @@ impl Model {
                         v.push(Op::CloneH(i));
                     }
                     v.push(Op::DropHThread(i));
+                    v.push(Op::DropHUnwind(i));
                     v.push(Op::IntoFunc(i));
                 }
             }
@@ -154,13 +161,13 @@ impl Model {
             Op::MakeList(p) => self.list = Some(self.pkgs[p].unwrap()),
             Op::DropList => self.list = None,
             Op::IntoFunc(h) => self.closure[h] = true,
-            Op::DropH(h) | Op::DropHThread(h) => {
+            Op::DropH(h) | Op::DropHThread(h) | Op::DropHUnwind(h) => {
                 self.closure[h] = false;
                 let m = self.handles[h].take().unwrap();
                 self.modules[m].handles -= 1;
                 self.release(m);
             }
-            Op::DropP(p) => {
+            Op::DropP(p) | Op::DropPUnwind(p) => {
                 let m = self.pkgs[p].take().unwrap();
                 self.modules[m].pkg_alive = false;
                 self.release(m);
@@ -332,6 +339,18 @@ struct Real {
     list: Option<roto::List<roto::RotoString>>,
 }
 
+/// When a replay stops at a violation the objects are dropped in field order; a list
+/// whose module goes first cannot be dropped any more (it calls into that module's
+/// code), so whatever list is still there is leaked instead of turning one violation
+/// into a crash as well.
+impl Drop for Real {
+    fn drop(&mut self) {
+        if let Some(l) = self.list.take() {
+            std::mem::forget(l);
+        }
+    }
+}
+
 thread_local! {
     static CODE_DEAD: RefCell<u64> = const { RefCell::new(0) };
     static BAD_CALLS: RefCell<Vec<String>> = const { RefCell::new(Vec::new()) };
@@ -394,7 +413,10 @@ fn replay(hist: &[Op], last: Op) -> Result<String, (String, Value)> {
     let mut model = Model::new();
     let mut obs = String::new();
     let all: Vec<Op> = hist.iter().copied().chain(std::iter::once(last)).collect();
+    let pages_base = host::alloc_count::live_pages();
+    let mut module_pages: Vec<(i64, i64)> = vec![];
     for (step, op) in all.iter().enumerate() {
+        let pages_before = host::alloc_count::live_pages();
         match *op {
             Op::NewRt => real.rt = Some(new_runtime()),
             Op::DropRt => drop(real.rt.take()),
@@ -483,8 +505,46 @@ fn replay(hist: &[Op], last: Op) -> Result<String, (String, Value)> {
                 std::thread::spawn(move || drop(hd)).join().map_err(|_| ("panic-on-thread".to_string(), json!(null)))?;
             }
             Op::DropP(p) => drop(real.pkgs[p].take()),
+            Op::DropHUnwind(h) => {
+                let Some(Slot::H(hd)) = real.handles[h].take() else { unreachable!("closures are dropped normally") };
+                let r = std::panic::catch_unwind(std::panic::AssertUnwindSafe(move || {
+                    let _owner = hd;
+                    std::panic::resume_unwind(Box::new("c11: unrelated panic while a handle is alive"));
+                }));
+                assert!(r.is_err());
+            }
+            Op::DropPUnwind(p) => {
+                let pk = real.pkgs[p].take().unwrap();
+                let r = std::panic::catch_unwind(std::panic::AssertUnwindSafe(move || {
+                    let _owner = pk;
+                    std::panic::resume_unwind(Box::new("c11: unrelated panic while a package is alive"));
+                }));
+                assert!(r.is_err());
+            }
+        }
+        if let Op::Compile(_) = *op {
+            // pages this module's machine code, read-only data and data occupy
+            let now = host::alloc_count::live_pages();
+            module_pages.push((now.0 - pages_before.0, now.1 - pages_before.1));
         }
         model.apply(*op);
+        // machine code is really released (observed at the allocator, not through a hook):
+        // the live page-aligned blocks are exactly those of the modules that must be alive
+        {
+            let now = host::alloc_count::live_pages();
+            let mut want = pages_base;
+            for (i, mp) in module_pages.iter().enumerate() {
+                if model.module_alive(i) {
+                    want.0 += mp.0;
+                    want.1 += mp.1;
+                }
+            }
+            if now != want {
+                let class = if now.0 < want.0 { "code-pages-released-too-early" } else { "code-pages-not-released" };
+                return Err((class.into(), json!({"step": step, "live_page_blocks_and_bytes": [now.0, now.1], "model": [want.0, want.1],
+                                                 "pages_per_module": module_pages.iter().map(|m| json!([m.0, m.1])).collect::<Vec<_>>()})));
+            }
+        }
         // invariants
         let (live, z, anomalies) = host::ledger_snapshot();
         // every live module holds one zero-sized tracked constant (KZ)
